@@ -296,7 +296,7 @@ def run(ctx):
     fact = sys.modules["adcgen.factor_intermediates"].factor_intermediates
     simplify = sys.modules["adcgen.simplify"].simplify
     reduce_expr = sys.modules["adcgen.reduce_expr"].reduce_expr
-    n_fac = 10 if quick else 60
+    n_fac = 10 if quick else 40
     fnames = ["t2_1", "t1_2", "t2_2", "p0_2_oo", "p0_2_vv", "t2eri_3",
               "t2eri_4", "t2eri_5", "t2sq"]
     if not quick:
@@ -345,7 +345,7 @@ def run(ctx):
         if mode == "merged_scaled":
             # merge the symmetry partners (fraction-aware simplification)
             try:
-                with EQ.time_limit(120 if quick else 300):
+                with EQ.time_limit(120 if quick else 150):
                     inp = reduce_expr(E0.copy())
             except EQ.TimeLimit:
                 ctx.dist["reduce:time-limit"] = \
@@ -377,7 +377,7 @@ def run(ctx):
         max_order = rng.choice([None, None, 2, 3])
         t0 = time.time()
         try:
-            with EQ.time_limit(120 if quick else 300):
+            with EQ.time_limit(120 if quick else 150):
                 got = fact(inp.copy(), types_or_names=sel,
                            max_order=max_order)
         except EQ.TimeLimit:
@@ -463,7 +463,7 @@ def run(ctx):
                     ctx.violation("C11:reduce-exception:pow:t2_1",
                                   f"reduce_expr raised {ex!r}", {}, False)
             try:
-                with EQ.time_limit(120 if quick else 300):
+                with EQ.time_limit(120 if quick else 150):
                     red = reduce_expr(E0.copy())
                 add(f"reduce:{name}", red, E0.copy().expand_intermediates(),
                     tg, sample={"expr": str(E0.sympy)[:200]})
